@@ -32,6 +32,20 @@ STRENGTHENED = {
     "C02-sh-default-bypasses-cache-five-stage": "C02 `prog_cached` jobs: both modes with a data cache",
     "C04-instruction-memory-not-cleared-on-write": "C04 `reparse` jobs: parser API into a state that already holds a longer program",
     "C16-svg-directives-object-reused": "C16 `text` harness: assembled sequences with CSR accesses, fresh never-inspected twin after every step",
+    # rounds 5-7 (third session)
+    "C10-setskip-redundant-touch": "deep histories from a reset cache against an executable reference cache (C09/C10/C03/C12 `deep`)",
+    "C18-write-wrap-once-per-access": "C18 configuration with a symbolic first valid address (0 = class default)",
+    "C17-toy-pc-sdec-fixedint": "C17 TOY pc over all 12-bit values; concrete twin uses the symbolic claim labels (the counterexample was found but could not be confirmed)",
+    "C06-decode-cache-survives-load": "C06 `reuse` harness (second program on an object that already ran one); hard per-job wall limit (the changed code never returned from run())",
+    "C16-wordwise-repr-memo-by-accesses": "C16 direct-mapped single-block cache configurations with a print-string ecall (uncounted reads that evict / write back)",
+    "C01-jalr-target-not-wrapped-single": "C01 claim pc-exact-where-an-instruction-can-be (the check compared pc modulo 2^32 only)",
+    "C15-offset-errorstop-escapes": "C15 `corrupt` harness: every token of every line shape replaced by / prefixed with / followed by junk tokens",
+    "C17-memory-table-memo-partial-store": "C17 memory table after a store that fails half-way at the top of the address space",
+    "C06-instruction-count-in-step": "C06 half-cycle twin and step-after-halt accounting claims (before, only C20 caught it)",
+    "C14-toy-listing-memo": "C14 `toy_listing` harness: the TOY listing re-assembles to the current memory word after every step of self-modifying programs",
+    "C20-table-memo-cycle-marker": "C20 drivers with the front end's queries issued between the two halves",
+    "C11-block-fill-stops-at-first-hole": "C11 fetch/reset histories over sparse instruction memories (added after reading the sub-agent's report, before the first run of the check against it)",
+    "C12-reset-invalidate-keeps-dirty-ghost": "reset operation inside the deep data-cache histories (added after reading the sub-agent's report, before the first run of the check against it)",
     "C13-is-done-latched": "C13 reload harness with front-end queries (and no-op step/run) between loads and a run to completion afterwards",
 }
 
@@ -75,7 +89,7 @@ for name in sorted(os.listdir("/verif/seeded")):
             "existing_tests_with_change": r.get("tests_with_change"),
             "demo_exit_with_change": r.get("demo_exit_with_change"),
             "demo_exit_without_change": r.get("demo_exit_without_change"),
-            "how": "bin/seedcheck.sh: in the sub-agent's scratch worktree (change applied): full pytest suite, OUT/demo.py with the change, git stash, demo again, git stash pop",
+            "how": "bin/seedcheck.sh: in the sub-agent's scratch worktree (change applied): full pytest suite, OUT/demo.py with the change, change saved as a patch and reverted, demo again, patch re-applied",
         },
         "checks_run": {c: v for c, v in sorted(r["checks"].items())},
         "how_checks_were_run": "VERIF_REPO=<worktree with the patch applied> bin/check <id> --tier quick (the check imports and reads the repository from VERIF_REPO instead of /repo)",
